@@ -104,8 +104,9 @@ def qft_numeric(n, sw):
 
 
 def qft_product_test(run, rng, count):
-    """ties the product-state rules (Model.v pstep) to the real simulator: the phases computed by `prun` in Coq
-    give the product state; compared with QFT(n)|x> from the numpy backend ('test', tolerance 1e-10)"""
+    """numeric cross-check ('test', tolerance 1e-10) of the product-state phases computed by `prun` in Coq against
+    QFT(n)|x> from the numpy backend (the rules themselves are proved sound for the Base/Mat.v matrices:
+    pstep_rules_agree_with_matrices)"""
     from qibo.models import QFT
     cases, exprs = [], []
     for _ in range(count):
@@ -133,6 +134,46 @@ def qft_product_test(run, rng, count):
         if np.abs(real - exp).max() > TOL:
             run.find(f"corr:qft:product:{n}:{sw}", "QFT(n)|x> differs from the product state predicted by the pstep rules",
                      {"n": n, "x": x, "with_swaps": sw, "max_abs_diff": float(np.abs(real - exp).max())}, concrete=False)
+
+
+def gate_matrix_obligations(run):
+    """the matrices used by the all-n theorem qft_ok_state_vector (C20/ProofsPS.v gate_mat) are the matrices the
+    real code builds:  H = h[[1,1],[1,-1]] (h = sqrt2/2),  CU1(pi/2^k) = diag(1,1,1,e^{i pi/2^k}),  SWAP"""
+    from fractions import Fraction
+    from qibo import gates
+    h = "(EMul ESqrt2 (EQ (1 # 2)))"
+    one, zero = "(EQ (1 # 1))", "(EQ (0 # 1))"
+
+    def lit(rows):
+        return "(MLit [" + "; ".join("[" + "; ".join(r) + "]" for r in rows) + "])"
+    terms = []
+    with qtrace.patched():
+        qtrace.fresh_sym_backend()
+        qtrace.setup_vars(0)
+        try:
+            terms.append(("gate_matrix_H", f"mcheck_eq {qtrace.gate_lit(gates.H(0))} {lit([[h, h], [h, '(ENeg ' + h + ')']])}"))
+            sw = [[one, zero, zero, zero], [zero, zero, one, zero], [zero, one, zero, zero], [zero, zero, zero, one]]
+            terms.append(("gate_matrix_SWAP", f"mcheck_eq {qtrace.gate_lit(gates.SWAP(0, 1))} {lit(sw)}"))
+            for k in range(0, 7):
+                ph = f"(ECis (acomb {st.qlit(Fraction(1, 2 ** k))} []))"
+                d = [[one, zero, zero, zero], [zero, one, zero, zero], [zero, zero, one, zero], [zero, zero, zero, ph]]
+                terms.append((f"gate_matrix_CU1_pi_over_2^{k}", f"mcheck_eq {qtrace.gate_lit(gates.CU1(1, 0, math.pi / 2 ** k))} {lit(d)}"))
+        except Exception as e:
+            run.find("trace:gate_matrices", f"symbolic tracing of H/CU1/SWAP failed: {type(e).__name__}: {e}", {}, concrete=False)
+            return
+    ok, out = run.coq_theorems("C20_gate_matrices.v", qtrace.COQ_HEADER,
+                               [(re.sub(r"\W", "_", nme), f"{t} = true", "vm_compute; reflexivity.") for nme, t in terms], timeout=600)
+    for nme, _ in terms:
+        run.oblige(nme, ok, "bridge")
+    if not ok:
+        run.find("unproved:gate_matrices", "the real H / CU1 / SWAP matrices are no longer the matrices of gate_mat", {"log": out[-800:]}, concrete=False)
+    # larger k (outside the tracer's pi-fraction table): exact float comparison of the real matrix
+    for k in range(7, 13):
+        m = np.asarray(gates.CU1(1, 0, math.pi / 2 ** k).matrix())
+        exp = np.diag([1, 1, 1, np.exp(1j * math.pi / 2 ** k)])
+        run.case(["cu1_matrix", k], nontrivial=False)
+        if np.abs(m - exp).max() > 1e-15:
+            run.find(f"qft:cu1-matrix:{k}", "CU1(pi/2^k).matrix() is not diag(1,1,1,e^{i pi/2^k})", {"k": k})
 
 
 def dft_literal(n, with_swaps):
@@ -659,9 +700,10 @@ def main(run):
                 run.axioms.add(m.group(1))
     run.notes["print_assumptions"] = pa
     run.not_proved += [
-        "qft_ok for all n against 2^n x 2^n matrices: NOT proved; proved: operator equality for n = 1..5 (6 thorough) (bounded instances, TrigMat) "
-        "and, for ALL n, qft_product_state + qft_product_is_dft in the product-state semantics of Model.v (rules trusted; numerically "
-        "tested against the simulator for n<=8), and the gate-list structure (qft_structure)",
+        "qft_ok as equality of the PRODUCT matrix circ_mat(QFT n) with the DFT matrix for all n: NOT proved (needs (A B) v = A (B v) for the "
+        "list matrices of Base/Mat.v). PROVED for all n >= 1: qft_ok_state_vector / qft_ok_complex -- applying the gate matrices (embed, mmul) "
+        "of the ladder one after the other to every basis column gives the DFT column -- and pstep_rules_agree_with_matrices; the product "
+        "matrix itself is proved equal to the DFT matrix for n = 1..5 (6 thorough) (bounded instances, TrigMat)",
         "ehrlich_enumerates for all n: NOT proved; proved by vm_compute for every 1 <= k < n <= 10 (bound stated in the theorem)",
         "unary_tree_ok / hw_encoder_ok / binary_encoder amplitudes for all data: NOT proved (angles are acos/atan2 of data); "
         "proved: RBS chains act as 2x2 rotations on unary amplitudes, the diagonal chain and the recursive tree loader load x_k/N_0 (ring level, all n, no division: zero blocks included; unary_diagonal_ok_ring, unary_tree_ok_ring); NOT proved: the breadth-first RBS gate list computes the recursive tree form; angle formulas (acos/atan2) satisfy the load equations; both are covered by the data-level tests incl. all 0/1 patterns of length 4 and 8",
@@ -669,6 +711,7 @@ def main(run):
     qft_structure(run, 12)
     qft_instances(run, 6 if thorough else 5)
     qft_product_test(run, rng, 120 if thorough else 40)
+    gate_matrix_obligations(run)
     simple_encoders(run, rng, 120 if thorough else 40)
     unary_structure(run)
     run.notes["unary_data"] = unary_data(run, rng, 300 if thorough else 80)
